@@ -31,10 +31,11 @@ func genCase(t *rapid.T, mode string) Case {
 		nr := rapid.IntRange(1, vstat.Pick(3, 4)).Draw(t, "rounds")
 		for r := 0; r < nr; r++ {
 			w.Rounds = append(w.Rounds, Round{
-				Kind:    rapid.SampledFrom([]int{KLock, KLock, KTryLock, KLockWithCtx, KLockWithCtx}).Draw(t, "kind"),
-				Pre:     rapid.IntRange(0, 11).Draw(t, "pre") == 0,
-				Cause:   rapid.IntRange(0, 2).Draw(t, "cause") == 0,
-				GateErr: rapid.IntRange(0, 2).Draw(t, "gateErr") == 0,
+				Kind:     rapid.SampledFrom([]int{KLock, KLock, KTryLock, KLockWithCtx, KLockWithCtx}).Draw(t, "kind"),
+				Pre:      rapid.IntRange(0, 11).Draw(t, "pre") == 0,
+				Cause:    rapid.IntRange(0, 2).Draw(t, "cause") == 0,
+				GateErr:  rapid.IntRange(0, 2).Draw(t, "gateErr") == 0,
+				GateDone: rapid.IntRange(0, 3).Draw(t, "gateDone") == 0,
 			})
 		}
 		c.Workers = append(c.Workers, w)
